@@ -21,7 +21,7 @@ def _worklist_ops(f, scope, tyfrag):
     ext, ins = [], []
     for g in scope:
         for s in g.calls():
-            if not s.argtys or tyfrag not in s.argtys[0]:
+            if not s.argtys or not any(t_ in s.argtys[0] for t_ in ((tyfrag,) if isinstance(tyfrag, str) else tyfrag)):
                 continue
             if not ('Vec<' in s.argtys[0] or 'VecDeque<' in s.argtys[0] or 'BinaryHeap<' in s.argtys[0]):
                 continue
@@ -68,7 +68,8 @@ def r1_worklists(ctx):
     f = ctx.anchor(T + '::dijkstra')
     if f:
         scope = [f] + P.closures_of(f)
-        ext, ins = _worklist_ops(f, scope, 'QueueElement')
+        # the work list's entries carry the first hop: the pinned `QueueElement { idx, distance, next: Option<Edge> }` or a tuple with the same content
+        ext, ins = _worklist_ops(f, scope, ('QueueElement', 'topology::Edge<'))
         if ctx.floor('queue extraction in dijkstra', len(ext), 1):
             kinds = {k for _, k in ext}
             ends = {k for _, k in ins}
@@ -77,7 +78,7 @@ def r1_worklists(ctx):
                       ext[0][0].where(), {'extraction': sorted(kinds), 'insertion': sorted(ends)})
         # first hop recorded only for unvisited nodes
         rec = [s for s in f.calls() if s.name.endswith('HashMap::insert')]
-        vis_push = [s for s in f.calls() if s.name == 'std::vec::Vec::push' and s.argtys and 'usize' in s.argtys[0] and 'QueueElement' not in s.argtys[0]]
+        vis_push = [s for s in f.calls() if s.name == 'std::vec::Vec::push' and s.argtys and 'usize' in s.argtys[0] and 'QueueElement' not in s.argtys[0] and 'topology::Edge<' not in s.argtys[0]]
         if ctx.floor('first-hop recording in dijkstra', len(rec), 1):
             s = rec[0]
             atoms = [a for _, a in f.guard_atoms(s.b)]
@@ -272,6 +273,32 @@ def r3_filters(ctx):
                             keep.append(c)
             ok = bool(rw) and bool(keep) and all(any(f.dominates(b, c.b) or c.b in f.reach_from(b) for (b, i) in rw) for c in keep) and \
                 all(set(f.loops_containing(c.b)) <= set(f.loops_containing(rw[0][0])) for c in keep)
+        if not ok:
+            # Option form: the id table holds `Option<NodeID>`; the retain closure rewrites dst from the Some payload and keeps the
+            # edge, and drops it (unchanged) on None
+            for g in rt:
+                n_some = n_none = 0
+                good = True
+                for path, outcome, decs in g.enum_paths():
+                    if outcome != 'return' or not consistent(g, path, decs):
+                        continue
+                    atoms = [a for _, a in path_atoms(g, path, decs)]
+                    st_ = [option_state(a) for a in atoms]
+                    st_ = [x for x in st_ if x and any(y[0] == 'index' or (y[0] == 'call' and 'index' in y[1]) for y in walk(x[1])) and any(y[0] == 'field' and y[2] == 'dst' for y in walk(x[1]))]
+                    if len({x[0] for x in st_}) != 1:
+                        good = False; continue
+                    r = path_ret_resolved(g, path)
+                    r = peel(r) if r is not None else None
+                    ws = [e for e in path_effects(g, path) if e[0] == 'w' and e[2] == 'dst']
+                    if st_[0][0] == 'some':
+                        n_some += 1
+                        from_payload = len(ws) == 1 and ws[0][4] is not None and any(y[0] == 'as' and y[2] == 'Some' for y in walk(ws[0][4]))
+                        good = good and r == ('int', 1) and from_payload
+                    else:
+                        n_none += 1
+                        good = good and r == ('int', 0) and not ws
+                if good and n_some >= 1 and n_none >= 1:
+                    ok = True
         ctx.check(ok, 'remap-and-drop', 'remaining edges are remapped to the new node ids and edges to removed nodes are dropped', f.where())
         # ... on every returning path (no shortcut around the pass: it is also what drops edges into removed nodes)
         rs = [s for s in f.calls() if s.name.endswith(('Vec::retain_mut', 'Vec::retain')) and f.loops_containing(s.b)]
